@@ -1,14 +1,29 @@
 """Shared driver for the semantic checks: cases -> real pipeline -> TLC verdicts
--> classification -> replay files."""
+-> classification -> replay files.
+
+Direct properties (C01, C02, ...): every table the real pipeline returns must
+be the bag LSem!Den assigns (TLC decides).  A disagreement is a VIOLATION unless
+it is explained by named engine deviations that are all listed known findings,
+or matches a listed finding's signature.
+
+Metamorphic properties (C07, C08, C11): cases come as a base program and
+variants with a predicate correspondence.  TLC checks Den(variant) = Den(base)
+on the specification (model theorem) and judges every table against Den.  The
+property is violated when a variant's observable differs from its base's: a
+disagreement with Den that the variant merely shares with its base (same rows,
+or the same diagnostic) is the business of C01/C02, not of the metamorphic
+property, and is counted as `inherited`.
+"""
 import collections
+import itertools
 import json
+import os
 import re
 
 from harness import common
 from harness import findings
 from harness import ir
 from harness import semcheck
-
 
 DEVIATIONS = ['count_empty_zero', 'list_empty_brackets', 'set_empty_brackets',
               'list_keeps_nulls', 'set_keeps_nulls', 'zero_key_one_row',
@@ -22,8 +37,10 @@ class Outcome:
     self.preds_judged = 0
     self.ok = 0
     self.disagreements = []      # (case, pred, kind, detail)
-    self.violations = []         # subset not matched by a known finding
+    self.violations = []         # replay paths
     self.known = collections.Counter()
+    self.inherited = 0
+    self.base_only = 0
     self.feature_counts = collections.Counter()
     self.nontrivial = set()
     self.tlc_states = 0
@@ -31,23 +48,28 @@ class Outcome:
     self.samples = []
     self.impl_status = collections.Counter()
     self.t_impl = self.t_tlc = 0
+    self.theorems_ok = 0
+    self.sql_differs = 0
 
 
-def Signature(case, pred, kind, res_pred, expected):
-  """Default signature of a disagreement, matched against known findings."""
+def CleanMsg(msg):
+  msg = re.sub(r'\x1b\[[0-9;]*m', '', msg or '')
+  return re.sub(r'\d+', 'N', re.sub(r'\d+(st|nd|rd|th)', 'Nth', msg))[:60]
+
+
+def Signature(case, pred, kind, detail):
+  """Signature of a disagreement, matched against known findings."""
   sig = {'kind': kind, 'features': case.get('meta', {}).get('features', [])}
   sig.update(case.get('meta', {}).get('sig', {}))
-  if res_pred is not None:
-    sig['status'] = res_pred.get('status')
-    sig['cls'] = res_pred.get('cls')
-    msg = re.sub(r'\x1b\[[0-9;]*m', '', res_pred.get('msg') or '')
-    sig['msg_head'] = re.sub(r'\d+', 'N', re.sub(r'\d+(st|nd|rd|th)', 'Nth', msg))[:60]
+  if isinstance(detail, dict):
+    sig['status'] = detail.get('status')
+    sig['cls'] = detail.get('cls')
+    sig['msg_head'] = CleanMsg(detail.get('msg'))
   return sig
 
 
 def Reproducers(prop):
   """Stored reproducers of the known findings of a property (cases)."""
-  import os
   out = []
   for f in findings.Load()['findings']:
     if f['property'] == prop and f.get('reproducer'):
@@ -56,10 +78,47 @@ def Reproducers(prop):
   return out
 
 
-def RunCases(prop, cases, tag=None, signer=None, max_samples=4,
-             expect_reject=False):
-  """Runs all cases, returns Outcome.  A case may carry 'expect': 'rows'
-  (default) - every queried predicate must compile, execute and match Den."""
+def _Explain(differ, lines, tag, errors):
+  """Minimal sets of engine deviations under which TLC accepts the observed
+  table; staged: singles (+ the full set as feasibility test), pairs, triples."""
+  explained = {}
+  by_line = {l['id']: l for l in lines}
+  pending = {}
+  for cid, p in differ:
+    pending.setdefault(cid, set()).add(p)
+  full = tuple(DEVIATIONS)
+  for size in (1, 2, 3):
+    if not pending:
+      break
+    subsets = list(itertools.combinations(DEVIATIONS, size))
+    if size == 1:
+      subsets.append(full)
+    vlines = []
+    for cid in sorted(pending):
+      base = by_line[cid]
+      for m, ss in enumerate(subsets):
+        vlines.append({'id': '%s#%d' % (cid, m), 'prog': base['prog'],
+                       'dev': list(ss), 'base': [], 'qmap': [], 'bobs': [],
+                       'obs': [o for o in base['obs']
+                               if o['p'] in pending[cid]]})
+    v2, _, e2 = semcheck.Validate(vlines, tag + '_dev%d' % size)
+    errors += e2
+    for cid in list(pending):
+      for p in list(pending[cid]):
+        oks = [subsets[m] for m in range(len(subsets))
+               if v2.get(('%s#%d' % (cid, m), p), (False,))[0]]
+        small = [ss for ss in oks if len(ss) == size]
+        if small:
+          explained[(cid, p)] = sorted(min(small))
+          pending[cid].discard(p)
+        elif size == 1 and full not in oks:
+          pending[cid].discard(p)      # not explainable by deviations
+      if not pending[cid]:
+        del pending[cid]
+  return explained
+
+
+def RunCases(prop, cases, tag=None, max_samples=4, metamorphic=False):
   tag = tag or prop.lower()
   out = Outcome()
   out.cases = len(cases)
@@ -67,16 +126,21 @@ def RunCases(prop, cases, tag=None, signer=None, max_samples=4,
   clock = common.Clock()
   results = semcheck.RunImpl(cases)
   out.t_impl = clock()
+  by_id = {c['id']: (c, r) for c, r in zip(cases, results)}
   lines = []
+  D = {}          # (case id, pred) -> (kind, detail)
   for case, res in zip(cases, results):
     for f in case.get('meta', {}).get('features', []):
       out.feature_counts[f] += 1
     if res.get('status') != 'ok':
       out.impl_status['program:' + res.get('status', '?')] += 1
       for p in case['query']:
-        out.disagreements.append((case, p, 'program_' + res['status'], res))
+        D[(case['id'], p)] = ('program_' + res['status'], res)
       continue
-    line = semcheck.TraceLine(case, res)
+    base_res = None
+    if case.get('base_id') and case['base_id'] in by_id:
+      base_res = by_id[case['base_id']][1]
+    line = semcheck.TraceLine(case, res, base_res)
     big = max([len(o['rows']) for o in line['obs']] + [0])
     if big > MAX_ROWS:
       out.impl_status['skipped_big'] += 1
@@ -87,104 +151,187 @@ def RunCases(prop, cases, tag=None, signer=None, max_samples=4,
       pr = res['preds'].get(p, {})
       out.impl_status[pr.get('status', '?')] += 1
       if pr.get('status') != 'ok':
-        out.disagreements.append((case, p, 'pred_' + pr.get('status', '?'),
-                                  pr))
+        D[(case['id'], p)] = ('pred_' + pr.get('status', '?'), pr)
   verdicts, stats, errors = semcheck.Validate(lines, tag) if lines else (
       {}, {'tlc_states': 0}, [])
   out.t_tlc = clock() - out.t_impl
   out.tlc_states = stats['tlc_states']
-  out.tlc_errors = errors
-  by_id = {c['id']: (c, r) for c, r in zip(cases, results)}
-  judged_ids = set()
+  same = {}
   for (cid, p), (ok, exp) in verdicts.items():
     case, res = by_id[cid]
+    if p == '$theorem':
+      if ok:
+        out.theorems_ok += 1
+      else:
+        D[(cid, p)] = ('model_theorem_fails', {})
+      continue
+    if p.startswith('$same:'):
+      same[(cid, p[6:])] = ok
+      continue
     out.preds_judged += 1
-    judged_ids.add(cid)
     if exp:
       out.nontrivial.add(common.Sha([case['prog'], p]))
     if ok:
       out.ok += 1
-      if len(out.samples) < max_samples and exp:
+      if len(out.samples) < max_samples and exp and (
+          not metamorphic or case.get('base') is not None):
         out.samples.append({'id': cid, 'pred': p, 'text': res['text'],
                             'expected_rows': exp[:6],
                             'observed_rows': res['preds'][p]['rows'][:6]})
     else:
-      out.disagreements.append((case, p, 'rows_differ',
-                                {'expected': exp,
-                                 'observed': res['preds'][p]['rows'],
-                                 'status': 'ok'}))
-  # Disagreements on rows: ask TLC which named engine deviations (LValues!
-  # Deviations) explain the observed table, if any (minimal subset).
-  differ = [(c, p) for c, p, kind, _ in out.disagreements
-            if kind == 'rows_differ']
-  explained = {}
-  if differ and not errors:
-    import itertools
-    by_line = {l['id']: l for l in lines}
-    pending = {}
-    for c, p in differ:
-      pending.setdefault(c['id'], set()).add(p)
-    full = tuple(DEVIATIONS)
-    # staged search for a minimal explaining subset: singles (+ the full set
-    # as a feasibility test), then pairs, then triples.
-    for size in (1, 2, 3):
-      if not pending:
-        break
-      subsets = list(itertools.combinations(DEVIATIONS, size))
-      if size == 1:
-        subsets.append(full)
-      vlines = []
-      for cid in sorted(pending):
-        base = by_line[cid]
-        for m, ss in enumerate(subsets):
-          vlines.append({'id': '%s#%d' % (cid, m), 'prog': base['prog'],
-                         'dev': list(ss),
-                         'obs': [o for o in base['obs']
-                                 if o['p'] in pending[cid]]})
-      v2, _, e2 = semcheck.Validate(vlines, tag + '_dev%d' % size)
-      errors += e2
-      for cid in list(pending):
-        for p in list(pending[cid]):
-          oks = [subsets[m] for m in range(len(subsets))
-                 if v2.get(('%s#%d' % (cid, m), p), (False,))[0]]
-          small = [ss for ss in oks if len(ss) == size]
-          if small:
-            explained[(cid, p)] = sorted(min(small))
-            pending[cid].discard(p)
-          elif size == 1 and full not in oks:
-            pending[cid].discard(p)      # not explainable by deviations
-        if not pending[cid]:
-          del pending[cid]
-  # every ok predicate must have been judged by TLC
+      D[(cid, p)] = ('rows_differ', {'expected': exp, 'status': 'ok',
+                                     'observed': res['preds'][p]['rows']})
   for line in lines:
     for o in line['obs']:
       if (line['id'], o['p']) not in verdicts and not errors:
-        out.tlc_errors.append(('missing verdict', line['id'], o['p']))
-  n = 0
-  for case, p, kind, detail in out.disagreements:
-    _, res = by_id[case['id']]
-    sig = (signer or Signature)(case, p, kind, detail if isinstance(
-        detail, dict) else None, None)
-    devs = explained.get((case['id'], p))
-    if devs:
-      # known iff every deviation needed to explain it is a listed finding
-      sig['explained_by'] = devs
-      fs = [cls.Match({'dev': d, 'kind': kind}) for d in devs]
-      if all(fs):
-        for f in fs:
-          out.known[f['id']] += 1
+        errors.append(('missing verdict', line['id'], o['p']))
+  differ = [k for k, (kind, _) in D.items() if kind == 'rows_differ']
+  explained = _Explain(differ, lines, tag, errors) if (
+      differ and not errors and not metamorphic) else {}
+  out.tlc_errors = errors
+  out.disagreements = [(by_id[cid][0], p, kind, detail)
+                       for (cid, p), (kind, detail) in D.items()]
+
+  # ---- which disagreements violate *this* property ---------------------------
+  report = []     # (case, pred, kind, detail, sig)
+  if not metamorphic:
+    for (cid, p), (kind, detail) in sorted(D.items(), key=lambda kv: kv[0]):
+      case = by_id[cid][0]
+      sig = Signature(case, p, kind, detail)
+      devs = explained.get((cid, p))
+      if devs:
+        sig['explained_by'] = devs
+        fs = [cls.Match({'dev': d, 'kind': kind}) for d in devs]
+        if all(fs):
+          for f in fs:
+            out.known[f['id']] += 1
+          continue
+      f = cls.Match(sig)
+      if f:
+        out.known[f['id']] += 1
         continue
-    f = cls.Match(sig)
-    if f:
-      out.known[f['id']] += 1
-      continue
+      report.append((case, p, kind, detail, sig))
+  else:
+    for case in cases:
+      if case.get('base') is None:
+        out.base_only += sum(1 for p in case['query']
+                             if (case['id'], p) in D)
+        continue
+      cid, bid = case['id'], case.get('base_id')
+      if (cid, '$theorem') in D:
+        report.append((case, '$theorem', 'model_theorem_fails', {},
+                       Signature(case, '$theorem', 'model_theorem_fails', {})))
+      for b, v, _ in case['qmap']:
+        dv, db = D.get((cid, v)), D.get((bid, b))
+        if not dv and not db:
+          continue
+        kind = None
+        if dv and not db:
+          kind, detail = 'variant_only_' + dv[0], dv[1]
+        elif db and not dv:
+          kind, detail = 'base_only_' + db[0], db[1]
+        elif dv[0] != db[0]:
+          kind, detail = 'variant_%s_base_%s' % (dv[0], db[0]), dv[1]
+        elif dv[0] == 'rows_differ':
+          if same.get((cid, v)):
+            out.inherited += 1
+            continue
+          kind, detail = 'variant_rows_differ_from_base', dv[1]
+        else:
+          if (dv[1].get('cls') == db[1].get('cls') and
+              CleanMsg(dv[1].get('msg')) == CleanMsg(db[1].get('msg'))):
+            out.inherited += 1
+            continue
+          kind, detail = 'variant_diagnostic_differs', dv[1]
+        sig = Signature(case, v, kind, detail)
+        f = cls.Match(sig)
+        if f:
+          out.known[f['id']] += 1
+          continue
+        report.append((case, v, kind, detail, sig))
+  n = 0
+  for case, p, kind, detail, sig in report:
+    res = by_id[case['id']][1]
     n += 1
-    path = common.WriteReplay(prop, '%s_%s_%s' % (tag, case['id'], p), {
-        'case': case, 'pred': p, 'kind': kind, 'detail': detail,
-        'text': res.get('text'), 'signature': sig})
+    payload = {'case': case, 'pred': p, 'kind': kind, 'detail': detail,
+               'text': res.get('text'), 'signature': sig}
+    if case.get('base_id') in by_id:
+      payload['base_case'] = by_id[case['base_id']][0]
+      payload['base_text'] = by_id[case['base_id']][1].get('text')
+    path = common.WriteReplay(prop, '%s_%s_%s' % (tag, case['id'],
+                                                 p.replace('$', '')), payload)
     out.violations.append(path)
     if n <= 25:
       common.Violation(prop, path)
+  if metamorphic:
+    # vacuity guard for plan variants: the SQL text really changed
+    for case, res in zip(cases, results):
+      if case.get('base_id') in by_id and case.get('keep_sql'):
+        bres = by_id[case['base_id']][1]
+        for b, v, _ in case['qmap']:
+          s1 = (res.get('preds', {}).get(v) or {}).get('sql')
+          s0 = (bres.get('preds', {}).get(b) or {}).get('sql')
+          if s1 and s0 and s1 != s0:
+            out.sql_differs += 1
+            break
   cls.Report()
   out.classifier = cls
   return out
+
+
+def StandardRun(prop, tier, cases, required, rule, assumptions, tag=None,
+                metamorphic=False, extra_coverage=None):
+  """Runs cases, writes evidence, prints a summary; returns the exit code."""
+  from harness import evidence
+  clock = common.Clock()
+  out = RunCases(prop, cases, tag=tag, metamorphic=metamorphic)
+  missing = [f for f in required if not out.feature_counts.get(f)]
+  theorems = sum(1 for c in cases if c.get('base') is not None)
+  coverage = {
+      'states': max(1, out.tlc_states),
+      'transitions': max(1, out.tlc_states),
+      'traces_validated_against_impl': out.preds_judged,
+      'evaluations': out.preds_judged,
+      'distinct_nontrivial': len(out.nontrivial),
+      'programs': out.cases,
+      'model_theorem_instances': theorems,
+      'model_theorem_ok': out.theorems_ok,
+      'rule': rule + '; distinct_nontrivial = distinct (program, predicate) '
+              'pairs whose denoted bag is non-empty',
+      'samples': out.samples,
+      'feature_counts': dict(out.feature_counts),
+      'impl_status': dict(out.impl_status),
+      'known_findings_hit': dict(out.known),
+      'disagreements_with_den': len(out.disagreements),
+      'inherited_from_base': out.inherited,
+      'variants_whose_sql_differs_from_base': out.sql_differs,
+      'exhaustive': False,
+  }
+  if extra_coverage:
+    coverage.update(extra_coverage)
+  evidence.Write(prop, tier, 'model_checking', coverage, clock(),
+                 violations=len(out.violations), assumptions=assumptions)
+  if out.tlc_errors:
+    print('MACHINERY: TLC errors:', json.dumps(out.tlc_errors)[:3000])
+    return 2
+  if missing:
+    print('MACHINERY: constructs never generated:', missing)
+    return 2
+  print('%s %s: %d programs, %d tables judged, %d ok, %d disagreements with '
+        'Den (%d known, %d inherited from base), %d violations, %.1fs '
+        '(impl %.1fs, tlc %.1fs)' % (
+            prop, tier, out.cases, out.preds_judged, out.ok,
+            len(out.disagreements), sum(out.known.values()), out.inherited,
+            len(out.violations), clock(), out.t_impl, out.t_tlc))
+  return 1 if out.violations else 0
+
+
+def StandardReplay(prop, path, metamorphic=False):
+  with open(path) as f:
+    rp = json.load(f)
+  cases = [rp['case']]
+  if rp.get('base_case'):
+    cases.insert(0, rp['base_case'])
+  out = RunCases(prop, cases, tag=prop.lower() + 'replay',
+                 metamorphic=metamorphic)
+  return 1 if out.violations else 0
